@@ -101,9 +101,9 @@ def run(ctx):
     ctx.evidence(dict(
         evaluations=calls,
         distinct_nontrivial=fw.distinct_nontrivial(cases),
-        rule="sessions = New + <=25 calls; 394 sessions enumerated exhaustively whatever the seed (every ordered pair of check kinds at plan and at block level, "
+        rule="sessions = New + <=25 calls; 406 sessions enumerated exhaustively whatever the seed (every ordered pair of check kinds at plan and at block level, "
              "every kind of call at each of the 5 cursor positions, every invalid ChecksType at each position, every ordered pair first misuse kind x second misuse kind of the 17 kinds - 289 sessions - "
-             "in which the second misuse meets a builder already holding the first one's error); then several builders alive at once with interleaved calls, each compared with the model of its own call list and no plan pointer emitted twice "
+             "in which the second misuse meets a builder already holding the first one's error; 12 sessions passing the same pointer to two Add* calls); then several builders alive at once with interleaved calls, each compared with the model of its own call list and no plan pointer emitted twice "
              "(family multi: the 6 orders of {a emits, a is Reset, b is created, b's first Add*} x 3 shapes, plus n/12 random interleavings of 2-3 ordinary sessions); then random families: 25% all-valid (valid prefix, Plan(), sometimes calls after it, sometimes Reset + second epoch), "
              "60% the same with 1-3 misuses, each of a uniformly chosen kind (later ones biased to nil arguments) inserted at a uniformly chosen applicable position, 5% invalid New, "
              "10% unbiased random call streams; evaluations = calls executed on the real builder and compared; "
@@ -127,7 +127,11 @@ def run(ctx):
     ), assumptions=[
         "labels: the harness recognises an emitted object by pointer identity (checks, sequences, actions) or by ALL BlockArgs fields (blocks); "
         "error identity is Go's == on the error value; error classes are read off the error text by keywords (class-only mismatches are reported as broken correspondence)",
-        "Not covered: the same *Checks/*Sequence/*Action pointer passed to two calls (aliasing), options other than WithGroupID, "
+        "the same *Sequence / *Action / *Checks pointer passed to two Add* calls IS covered (exhaustive family alias:*, 12 sessions: a sequence twice in one block and in two blocks, "
+        "an action several times in one sequence, in another sequence and in a group, one Checks as two plan groups and a block group): a label goes with the pointer, the second call carries "
+        "the first call's label and, as the Actions already in it, what the object holds at that moment, and the model appends what each call was given, so the emitted tree lists it twice; "
+        "adding actions THROUGH the second occurrence of an aliased sequence/group (visible in both places) is outside the model and not generated. "
+        "Not covered: options other than WithGroupID, "
         "calling an Option directly on a builder, a zero-value BuildPlan not made by New, concurrent use",
     ])
 
